@@ -13,6 +13,7 @@ from __future__ import annotations
 import datetime as dt
 import hashlib
 import itertools
+import json
 import random
 import re
 from decimal import ROUND_DOWN, ROUND_HALF_UP, Decimal, InvalidOperation
@@ -164,9 +165,15 @@ def dec_cast(value, is_string: bool, p: int, s: int, rounding):
     except InvalidOperation:
         return None
     q = d.quantize(Decimal(1).scaleb(-s), rounding=rounding)
-    if len(q.as_tuple().digits) - s > p - s and q != 0:
+    if q == 0:
+        q = abs(q)          # no negative zero in SQL
+    if not fits(q, p, s):
         return None
     return q
+
+
+def fits(q, p, s) -> bool:
+    return q == 0 or len(q.as_tuple().digits) <= p
 
 
 def add_months(d, n):
@@ -244,10 +251,10 @@ def build(chk):
                     continue
                 rx.append((subj, pat, ngroups, rnd.choice([1, 2]), rnd.choice([1, 2]), "".join(params), group))
     rnd.shuffle(rx)
-    rx = rx[: (160 if quick else 1500)]
+    rx = rx[: (400 if quick else 3000)]
     rx += [("abc abd abe", "ab.", 0, 5, 1, None, None), ("abc abd abe", "a(b)(.)", 2, 1, 2, "e", None), ("abc abd abe", "a(b)(.)", 2, 1, 2, "e", 2)]
     for subj, pat, ng, pos, occ, params, group in rx:
-        args = [sql_str(subj), sql_str(pat.replace("\\", "\\\\"))]
+        args = [sql_str(subj), sql_str(pat)]
         # positional arguments: later ones force the earlier ones
         npos = 5 if group is not None else 4 if params is not None else 3 if occ is not None else 2 if pos is not None else 1
         vals = [pos if pos is not None else 1, occ if occ is not None else 1, params if params is not None else "c", group]
@@ -266,15 +273,15 @@ def build(chk):
                   "judge": ("fixed", "N", "E:parser", "C10/regexp-substr-null-subject")})
 
     # ---- TO_NUMBER family ----------------------------------------------------------------------
-    strs = ["12.5", "2.5", "-2.5", "0.5", "-0.5", "1.005", "12.345", "12.355", "0.125", "99.995", "7", "-0", "123456", "abc", "", "1.5.2"]
+    strs = ["12345678901234567890", "12.5", "2.5", "-2.5", "0.5", "-0.5", "1.005", "12.345", "12.355", "0.125", "99.995", "7", "-0", "123456", "abc", "", "1.5.2"]
     nums = ["12.345", "12.355", "2.5", "3.5", "-2.5", "0.125", "0.135", "7", "12.34", "99.995"]
     argsets = [[], [10], [10, 1], [10, 2], [5, 0], [38, 0], [4, 2], ["s"], ["s", 10], ["s", 10, 2]]
     fns = ["to_number", "to_decimal", "to_numeric", "try_to_number", "try_to_decimal", "try_to_numeric"]
     combos = [(fn, v, True, a) for fn in fns for v in strs for a in argsets] + [(fn, v, False, a) for fn in fns[:3] for v in nums for a in argsets[:7]]
     rnd.shuffle(combos)
-    combos = combos[: (220 if quick else 2000)]
+    combos = combos[: (500 if quick else 3000)]
     combos += [("to_number", "12.5", True, []), ("to_number", "12.5", True, [10]), ("to_number", "12.5", True, [10, 1]), ("to_decimal", "2.5", True, []),
-               ("to_number", "12.345", False, [10, 2]), ("to_number", "12", True, ["s"]), ("try_to_number", "abc", True, [])]
+               ("to_number", "12.345", False, [10, 2]), ("to_number", "99.995", True, [4, 2]), ("to_number", "12", True, ["s"]), ("try_to_number", "abc", True, [])]
     for fn, v, is_str, a in combos:
         lit = sql_str(v) if is_str else v
         extra = "".join(", " + (sql_str("99.99") if t == "s" else str(t)) for t in a)
@@ -286,8 +293,9 @@ def build(chk):
 
     # ---- DATEADD -------------------------------------------------------------------------------
     dates = ["2023-01-31", "2024-02-29", "2023-02-28", "2023-03-31", "2023-12-31", "1970-01-01", "1969-12-31", "2000-02-29", "2023-05-31", "2100-02-28"]
-    units = {"year": ["year", "yy", "years"], "quarter": ["quarter", "qtr"], "month": ["month", "mm", "mon"], "week": ["week", "wk"], "day": ["day", "dd", "d", "days"],
-             "hour": ["hour", "hh"], "minute": ["minute", "mi"], "second": ["second", "ss"]}
+    units = {"year": "year y yy yyy yyyy yr years yrs".split(), "quarter": "quarter q qtr qtrs quarters".split(), "month": "month mm mon mons months".split(),
+             "week": "week w wk weekofyear woy wy".split(), "day": "day d dd days dayofmonth".split(), "hour": "hour h hh hr hours hrs".split(),
+             "minute": "minute m mi min minutes mins".split(), "second": "second s sec seconds secs".split()}
     dcombos = []
     for d in dates:
         for unit in units:
@@ -295,10 +303,10 @@ def build(chk):
                 for shape in ("castDate", "castDate2", "toDate", "strLit", "tsExpr", "dateExpr"):
                     dcombos.append((d, unit, n, shape))
     rnd.shuffle(dcombos)
-    dcombos = dcombos[: (260 if quick else 2500)]
-    dcombos += [("2023-01-31", "month", 1, "castDate"), ("2023-01-31", "quarter", 1, "castDate"), ("2023-01-31", "day", 1, "dateExpr"), ("2023-01-31", "hour", 1, "castDate")]
-    for d, unit, n, shape in dcombos:
-        spelled = rnd.choice(units[unit])
+    dcombos = dcombos[: (600 if quick else 2880)]
+    fixed_d = [("2023-01-31", "month", 1, "castDate"), ("2023-01-31", "quarter", 1, "castDate"), ("2023-01-31", "day", 1, "dateExpr"), ("2023-01-31", "hour", 1, "castDate")]
+    for ci, (d, unit, n, shape) in enumerate(fixed_d + dcombos):
+        spelled = unit if ci < len(fixed_d) else rnd.choice(units[unit])
         if shape == "castDate":
             operand, mshape, base = f"'{d}'::date", "castDate", dt.date.fromisoformat(d)
         elif shape == "castDate2":
@@ -387,7 +395,7 @@ def build(chk):
 
     # ---- REGEXP_REPLACE, TO_DATE, TO_TIMESTAMP (oracle only) ---------------------------------------------
     for subj, pat, rep in [("abcabc", "b", "X"), ("abcabc", "b", None), ("a1b22", "\\d+", "#"), ("aaa", "a", "bb"), ("", "a", "b"), ("abc", "(b)", "[\\1]")]:
-        x = f"regexp_replace({sql_str(subj)}, {sql_str(pat.replace(chr(92), chr(92) * 2))}" + (f", {sql_str(rep.replace(chr(92), chr(92) * 2))})" if rep is not None else ")")
+        x = f"regexp_replace({sql_str(subj)}, {sql_str(pat)}" + (f", {sql_str(rep)})" if rep is not None else ")")
         want = re.sub(pat, rep or "", subj)
         cases.append({"tag": "regexp_replace", "task": ("expr", (x, ctx_pick(rnd, quick, k=1))), "line": None, "x": x, "judge": ("fixed", "S" + want, None, None)})
     cases.append({"tag": "regexp_replace:extra-args", "task": ("expr", ("regexp_replace('abcabc', 'b', 'X', 2)", ["select"])), "line": None, "x": "regexp_replace('abcabc', 'b', 'X', 2)",
@@ -410,7 +418,10 @@ def expected(case, rep):
     if k == "rx":
         subj, pat = j[1], j[2]
         params = dec_str(rep["impl_params"])
-        spec = rx_eval(subj, pat, j[3], int(rep["spec_from"]) - 1, int(rep["spec_group"]), int(rep["spec_occ"]) - 1)
+        sg = int(rep["spec_group"])
+        if sg > re.compile(pat).groups:
+            sg = 0      # documented: the `e` parameter without sub-expressions in the pattern extracts the whole match
+        spec = rx_eval(subj, pat, j[3], int(rep["spec_from"]) - 1, sg, int(rep["spec_occ"]) - 1)
         start = max(int(rep["impl_slice"]) - 1, 0)
         idx1 = int(rep["impl_index"])
         impl = rx_eval(subj, pat, params, start, int(rep["impl_group"]), idx1 - 1) if idx1 >= 1 else None
@@ -431,6 +442,16 @@ def expected(case, rep):
         spec = val(rep["spec"], ROUND_HALF_UP)
         impl = val(rep["impl"], ROUND_HALF_UP if is_str else ROUND_DOWN)
         key = "C10/to-number-numeric-truncates" if (not is_str and spec != impl) else None
+        if is_str and rep["impl"] != "NI":
+            # DuckDB checks the precision before rounding: '99.995' → DECIMAL(4,2) gives 100.00
+            p, s = (int(t[1:]) for t in rep["impl"][1:].split(","))
+            try:
+                d = Decimal(v)
+                up, down = d.quantize(Decimal(1).scaleb(-s), rounding=ROUND_HALF_UP), d.quantize(Decimal(1).scaleb(-s), rounding=ROUND_DOWN)
+                if not fits(up, p, s) and fits(down, p, s):
+                    impl, key = f"D{up}", "C10/to-number-round-overflow"
+            except InvalidOperation:
+                pass
         return spec, impl, key
     if k == "dateadd":
         unit, n, base = j[1], j[2], j[3]
@@ -545,6 +566,17 @@ def judge(chk, case, real, rep):
 
 def run(chk) -> None:
     cases = build(chk)
+    # the committed witnesses (one per known finding) are judged first
+    by_x = {c["x"]: c for c in cases}
+    for f in sorted((common.CORPUS / "C10").glob("*.json")):
+        w = json.loads(f.read_text())
+        if w["x"] not in by_x:
+            raise common.Infra(f"corpus witness {f.name} is not among the generated cases")
+        c = by_x[w["x"]]
+        if c["task"][0] == "expr":
+            c = dict(c, task=("expr", (c["task"][1][0], ["select"])))
+        judge(chk, c, _worker([c["task"]])[0], common.batch([c["line"]])[0] if c["line"] else None)
+        chk.count("corpus")
     chk.rule = ("boundary-forced literal arguments per construct (positions/occurrences/groups around the match count and the string length; decimals at "
                 "rounding midpoints, precision limits, unparsable; month ends, leap days, epoch and year boundaries × 8 units × 6 operand shapes; all NULL "
                 "patterns; seeds at the int32 and setseed limits; every SHA2 length) × contexts {select list, WHERE, nested call, scalar subquery, CTE, view, "
